@@ -25,6 +25,14 @@ CLAIMS = {
    note=COMMON_NOTE + "Model: coq/Model/Queue.v. Drop callbacks of TCP sockets are covered under C05/C06; here the callback is the harness's.",
    tech="Coq proof (byte-account invariant and interleaving invariant over all histories, generic in the packet type) + trace equality + tail-drop oracle on implementation traces",
    text="Theorems in coq/Properties/Properties_C10.v for every history of arrivals and timer events: m_queue_size is the bytes held; a packet is dropped iff droppable, capacity > 0 and held + size > capacity; ACK/SYN-ACK/error never dropped; capacity 0 unlimited; arrivals = interleaving(dropped, forwarded ++ queued) i.e. exactly-once, unaltered, FIFO; a drop is reported in the arrival step only, with the packet itself."),
+ "C15": dict(
+   note=COMMON_NOTE + "Model: coq/Model/HttpParse.v with checked reads of the caller's buffer. C++ side runs under ASan/UBSan on exactly-sized heap blocks. PARTIAL: totality, in-bounds, termination and the find_request_len specification are proved for every byte string and length; the round-trip clause for well-formed requests is covered by the correspondence and the oracle (field equality on implementation results), not yet by a theorem. tolower is modelled as the ASCII table (glibc C locale).",
+   tech="Coq proof (no checked read ever fails, fuel never runs out, first-match specification) + three-way agreement of model, implementation under ASan, and an independent oracle on 4600+ inputs per run",
+   text="Theorems in coq/Properties/Properties_C15.v for every byte string and every length: parse_request returns a request or the parse failure, never reads outside [0,len) and never exhausts its fuel; find_request_len is total, in bounds and returns the offset just past the first CRLFCRLF or -1; trim is total and in bounds on any string. Round trip: partial (see level_note)."),
+ "C19": dict(
+   note=COMMON_NOTE + "Model: coq/Model/Pcap.v. PARTIAL: the codec (valid pcap, lengths, addresses, ports, payload, time stamps) is proved to round-trip for every list of IPv4 sends and checked byte-for-byte against aux::pcap plus an independent python parser; that the sockets call the logger exactly once per transmission with seq = bytes previously sent is part of the TCP/UDP model and is claimed with C05/C08 once those are in (DESIGN.md section 12).",
+   tech="Coq proof (decode . encode = id for all well-formed send lists) + byte equality of the file with the model's encoding + independent parser on the implementation's file",
+   text="Theorems in coq/Properties/Properties_C19.v: decode_file (encode_file sends) = sends for every list of IPv4 sends within the format's ranges (one record per send, in order, lengths match, true addresses/ports, payload intact, seq as given, time stamp = send time in microseconds from the epoch); records are appended one per send; time stamps are monotone in send times."),
 }
 
 NOT_YET = "not built yet in this round (planned: DESIGN.md section 7); not claimed"
@@ -48,7 +56,7 @@ def main():
     na = [{"property_id": "C%02d" % i, "reason": NOT_YET} for i in range(1, 21) if "C%02d" % i not in CLAIMS]
     m = {
         "version": 1,
-        "setup_cmd": "sh -c 'cd coq && coq_makefile -f _CoqProject -o Makefile >/dev/null && make -j16 >/dev/null && cd .. && ocaml/build.sh && python3 tools/build_cpp.py plain >/dev/null'",
+        "setup_cmd": "sh -c 'cd coq && coq_makefile -f _CoqProject -o Makefile >/dev/null && make -j16 >/dev/null && cd .. && ocaml/build.sh && python3 tools/build_cpp.py plain >/dev/null && python3 tools/build_cpp.py asan >/dev/null'",
         "hooks": {"guard": "LIBSIMULATOR_VERIF",
                   "enable": "checks compile /repo/src/*.cpp themselves with -DLIBSIMULATOR_VERIF (tools/build_cpp.py)",
                   "baseline_off_cmd": "sh -c 'cmake --build /repo/_build && ctest --test-dir /repo/_build -j8 --timeout 900'",
